@@ -696,6 +696,10 @@ func (t *treadlink) handle(cs *connState) message {
 	return &rreadlink{target}
 }
 
+// rreadOverhead is the size of an Rread or Rreaddir frame without its data:
+// size[4] type[1] tag[2] count[4].
+const rreadOverhead = headerLength + 4
+
 // handle implements handler.handle.
 func (t *tread) handle(cs *connState) message {
 	// Lookup the fid.
@@ -714,6 +718,13 @@ func (t *tread) handle(cs *connState) message {
 	data := cs.readBufPool.Get().(*[]byte)
 	// Retain a reference to the full length of the buffer.
 	dataBuf := (*data)
+
+	// The reply must fit in the negotiated message size: shorten the
+	// data, never exceed the limit (the buffer itself is msize long).
+	count := t.Count
+	if limit := uint32(len(dataBuf)); limit >= rreadOverhead && count > limit-rreadOverhead {
+		count = limit - rreadOverhead
+	}
 	if err := ref.safelyRead(func() (err error) {
 		switch ref.pendingXattr.op {
 		case xattrNone:
@@ -727,7 +738,7 @@ func (t *tread) handle(cs *connState) message {
 				return linux.EPERM
 			}
 
-			n, err = ref.file.ReadAt(dataBuf[:t.Count], int64(t.Offset))
+			n, err = ref.file.ReadAt(dataBuf[:count], int64(t.Offset))
 			return err
 
 		case xattrWalk:
@@ -736,7 +747,7 @@ func (t *tread) handle(cs *connState) message {
 			// the input buffer has length 0.
 			// tread means the caller already knows the required buffer length
 			// and wants to get the attribute value.
-			if t.Count == 0 {
+			if count == 0 {
 				if ref.pendingXattr.size == 0 {
 					// the provided buffer has length 0 and
 					// the attribute value is also empty.
@@ -746,11 +757,11 @@ func (t *tread) handle(cs *connState) message {
 				return linux.EINVAL
 			}
 
-			if t.Offset+uint64(t.Count) > uint64(len(ref.pendingXattr.buf)) {
+			if t.Offset+uint64(count) > uint64(len(ref.pendingXattr.buf)) {
 				return linux.EINVAL
 			}
 
-			n = copy(dataBuf[:t.Count], ref.pendingXattr.buf[t.Offset:])
+			n = copy(dataBuf[:count], ref.pendingXattr.buf[t.Offset:])
 			return nil
 		default:
 			return linux.EINVAL
@@ -1077,7 +1088,17 @@ func (t *treaddir) handle(cs *connState) message {
 		return newErr(err)
 	}
 
-	return &rreaddir{Count: t.Count, Entries: entries}
+	// The reply must fit in the negotiated message size: the entries are
+	// cut to a byte count that leaves room for the reply's fixed part.
+	count := t.Count
+	limit := atomic.LoadUint32(&cs.messageSize)
+	if limit == 0 {
+		limit = maximumLength
+	}
+	if limit >= rreadOverhead && count > limit-rreadOverhead {
+		count = limit - rreadOverhead
+	}
+	return &rreaddir{Count: count, Entries: entries}
 }
 
 // handle implements handler.handle.
